@@ -249,6 +249,27 @@ func TestC19(t *testing.T) {
 				}
 			}
 		}
+		// a listing that names a node more than once (a host listed twice, two names
+		// of one address) is a listing of the same node set
+		if rapid.IntRange(0, 2).Draw(t, "withRepeats") == 0 {
+			pl := append([]string{}, labels...)
+			for r := rapid.IntRange(1, 3).Draw(t, "repeats"); r > 0; r-- {
+				dup := labels[rapid.IntRange(0, n-1).Draw(t, "repeated")]
+				at := rapid.IntRange(0, len(pl)).Draw(t, "repeatAt")
+				pl = append(pl[:at], append([]string{dup}, pl[at:]...)...)
+			}
+			r := ringOf(pl)
+			for i, l := range locs {
+				if got := r.Bucket(l).Label(); got != ownerLoc[i] {
+					t.Fatalf("C19: ring location %d is owned by %s when nodes are listed as %v but by %s when the same nodes are listed as %v (some of them twice)", l, ownerLoc[i], labels, got, pl)
+				}
+			}
+			for i, k := range keys {
+				if got := r.Hash(k).Label(); got != ownerKey[i] {
+					t.Fatalf("C19: key %q is routed to %s when nodes are listed as %v but to %s when the same nodes are listed as %v (some of them twice)", k, ownerKey[i], labels, got, pl)
+				}
+			}
+		}
 		// shares
 		if n >= 2 && nkeys >= 2000*n {
 			for _, l := range labels {
